@@ -147,6 +147,53 @@ func cmpRelation(a, b *ssa.BinOp) int {
 	return 0
 }
 
+// cmpRelation on a path: operands are compared after resolving the phis this path has resolved, so what
+// was learnt about `err == nil` carries over to the value err stands for on this path (and back).
+func (f *H15Facts) cmpRelation(a, b *ssa.BinOp) int {
+	if r := cmpRelation(a, b); r != 0 {
+		return r
+	}
+	if !isCmp(a.Op) || !isCmp(b.Op) {
+		return 0
+	}
+	ax, ay, bx, by := f.Resolve(a.X), f.Resolve(a.Y), f.Resolve(b.X), f.Resolve(b.Y)
+	bop := b.Op
+	switch {
+	case sameOperand(ax, bx) && sameOperand(ay, by):
+	case sameOperand(ax, by) && sameOperand(ay, bx):
+		bop = flip(bop)
+	default:
+		return 0
+	}
+	if a.Op == bop {
+		return 1
+	}
+	if a.Op == negOp(bop) {
+		return -1
+	}
+	return 0
+}
+
+// otherConst: a and b compare the same (resolved) value with constants; differ reports whether the two
+// constants are different values.
+func (f *H15Facts) otherConst(a, b *ssa.BinOp) (differ bool, ok bool) {
+	split := func(x *ssa.BinOp) (ssa.Value, *ssa.Const) {
+		if c, isC := Unwrap(x.Y).(*ssa.Const); isC {
+			return f.Resolve(x.X), c
+		}
+		if c, isC := Unwrap(x.X).(*ssa.Const); isC {
+			return f.Resolve(x.Y), c
+		}
+		return nil, nil
+	}
+	av, ac := split(a)
+	bv, bc := split(b)
+	if av == nil || bv == nil || av != bv || ac.Value == nil || bc.Value == nil {
+		return false, false
+	}
+	return !constant.Compare(ac.Value, token.EQL, bc.Value), true
+}
+
 // Known evaluates a boolean value under the facts of the path.
 func (f *H15Facts) Known(v ssa.Value) (bool, bool) { return f.eval(v, 0) }
 
@@ -190,11 +237,17 @@ func (f *H15Facts) eval(v ssa.Value, d int) (bool, bool) {
 		if isCmp(x.Op) {
 			for k, val := range f.Bool {
 				if kb, ok := k.(*ssa.BinOp); ok {
-					switch cmpRelation(kb, x) {
+					switch f.cmpRelation(kb, x) {
 					case 1:
 						return val, true
 					case -1:
 						return !val, true
+					}
+					// x == c1 known true decides x == c2 / x != c2 for a different constant c2
+					if val && kb.Op == token.EQL && (x.Op == token.EQL || x.Op == token.NEQ) {
+						if d, ok := f.otherConst(kb, x); ok && d {
+							return x.Op == token.NEQ, true
+						}
 					}
 				}
 			}
